@@ -9,6 +9,8 @@ TABLE = {
     's@quote': "it's", 's@qq': "a''b", 's@comment': '-- x', 's@nl': 'a\nb', 's@uni': 'åäö ☃',
     's@semi': 'a;b', 's@paren': ');', 's@kw': 'INSERT INTO', 's@tab': 'a\tb', 's@bs': 'a\\b', 's@dq': 'say "x"', 's@nul': 'a\x00b',
     's@pct': '100% %s %d %(x)s {0}',
+    # a backslash directly in front of a quote, a value that ends in a backslash, quotes at the very ends, a lone quote
+    's@bsq': "sed 's/\\'/x/'", 's@bsend': 'C:\\Users\\me\\', 's@qends': "'both ends'", 's@q1': "'",
     'u@big': str(2 ** 128 - 1), 'u@mid': str((3 << 96) + 3), 'i@big': str(-2 ** 70), 'i@pos': str(2 ** 65 + 1),
 }
 REV = {}
